@@ -328,3 +328,725 @@ def quad_gen(rng, inputs):
         b = rng.uniform(-3, 3)
         c = rng.uniform(-3, 3)
     return [a, b, c]
+
+
+# ------------------------------------------------------------------------------------------ analytic oracle (Python, independent)
+def f32(x):
+    return struct.unpack("<f", struct.pack("<f", x))[0]
+
+
+def sdf(gtype, size, l):
+    """signed distance (negative inside) of the geom-frame point l to the solid; exact for sphere / capsule /
+    cylinder / box, first-order accurate near the surface for the ellipsoid"""
+    x, y, z = l
+    if gtype == SPHERE:
+        return math.sqrt(x * x + y * y + z * z) - size[0]
+    if gtype == CAPSULE:
+        zc = min(max(z, -size[1]), size[1])
+        return math.sqrt(x * x + y * y + (z - zc) * (z - zc)) - size[0]
+    if gtype == CYLINDER:
+        dr = math.hypot(x, y) - size[0]
+        dz = abs(z) - size[1]
+        return math.hypot(max(dr, 0.0), max(dz, 0.0)) + min(max(dr, dz), 0.0)
+    if gtype in (BOX, MESH):
+        d = [abs(x) - size[0], abs(y) - size[1], abs(z) - size[2]]
+        return math.sqrt(sum(max(c, 0.0) ** 2 for c in d)) + min(max(d), 0.0)
+    if gtype == ELLIPSOID:
+        k0 = math.sqrt((x / size[0]) ** 2 + (y / size[1]) ** 2 + (z / size[2]) ** 2)
+        k1 = math.sqrt((x / size[0] ** 2) ** 2 + (y / size[1] ** 2) ** 2 + (z / size[2] ** 2) ** 2)
+        if k1 == 0.0:
+            return -min(size)
+        return k0 * (k0 - 1.0) / k1
+    raise ValueError(gtype)
+
+
+def bound_radius(gtype, size):
+    if gtype == SPHERE:
+        return size[0]
+    if gtype == CAPSULE:
+        return size[0] + size[1]
+    if gtype == CYLINDER:
+        return math.hypot(size[0], size[1])
+    if gtype == ELLIPSOID:
+        return max(size)
+    return math.sqrt(size[0] ** 2 + size[1] ** 2 + size[2] ** 2)
+
+
+def convex_min(g, lo, hi, iters=48):
+    """minimum of a convex function on [lo, hi] by golden section (plus the end points)"""
+    if hi <= lo:
+        return g(lo)
+    phi = 0.6180339887498949
+    a, b = lo, hi
+    c, d = b - phi * (b - a), a + phi * (b - a)
+    gc, gd = g(c), g(d)
+    best = min(g(lo), g(hi), gc, gd)
+    for _ in range(iters):
+        if gc < gd:
+            b, d, gd = d, c, gc
+            c = b - phi * (b - a)
+            gc = g(c)
+            best = min(best, gc)
+        else:
+            a, c, gc = c, d, gd
+            d = a + phi * (b - a)
+            gd = g(d)
+            best = min(best, gd)
+    return best
+
+
+class Dev:
+    """largest observed deviation relative to the allowed tolerance, per check"""
+
+    def __init__(self):
+        self.m = {}
+
+    def note(self, key, val, tol):
+        r = val / tol if tol > 0 else (0.0 if val == 0 else float("inf"))
+        if r > self.m.get(key, 0.0):
+            self.m[key] = r
+        return r <= 1.0
+
+
+MARGIN = 1e-7      # a hit / miss is "robust" when the ray penetrates deeper than / stays farther than this
+
+
+def analytic_check(gtype, size, pos, mat, pnt, vec, d, dev, mesh=False):
+    """Checks one per-geom distance d of the real code against the analytic geometry.  Returns None when the case is
+    consistent (or outside the well-conditioned domain of this oracle), else (key, message)."""
+    if not all(math.isfinite(v) for v in list(size) + list(pos) + list(mat) + list(pnt) + list(vec)):
+        return None
+    if d != d or (d < 0 and d != -1.0):
+        return ("c16:dist-range", "per-geom distance %r is neither -1 nor >= 0" % d)
+    dif = [pnt[i] - pos[i] for i in range(3)]
+    lp = mattvec(mat, dif)
+    lv = mattvec(mat, vec)
+    nv = math.sqrt(sum(x * x for x in lv))
+    nl = math.sqrt(sum(x * x for x in lp))
+    if nv < 1e-6 or nv > 1e6:
+        return None                      # guards of the code (mjMINVAL) / overflow: not an analytic case
+    tname = {PLANE: "plane", SPHERE: "sphere", CAPSULE: "capsule", ELLIPSOID: "ellipsoid", CYLINDER: "cylinder",
+             BOX: "box", MESH: "mesh"}[gtype]
+    if gtype == PLANE:
+        sx, sy = size[0], size[1]
+        zdir = lv[2] / nv
+        if abs(zdir) < 1e-9:
+            return None                  # parallel to the plane: either answer is within rounding
+        expect = None
+        if zdir < 0 and lp[2] > 1e-9 * (1 + nl):
+            t = -lp[2] / lv[2]
+            p0, p1 = lp[0] + t * lv[0], lp[1] + t * lv[1]
+            m0 = (abs(p0) - sx) if sx > 0 else -1.0
+            m1 = (abs(p1) - sy) if sy > 0 else -1.0
+            tolr = 1e-9 * (1 + nl + t * nv) / abs(zdir)
+            if m0 < -tolr and m1 < -tolr:
+                expect = t
+            elif m0 > tolr or m1 > tolr:
+                expect = -1.0
+            else:
+                return None
+        elif zdir > 0 or lp[2] < -1e-9 * (1 + nl):
+            expect = -1.0                # back face or origin below the plane
+        else:
+            return None
+        if expect == -1.0:
+            if d != -1.0:
+                return ("c16:plane-spurious-hit", "ray_plane reports %r where no front-face intersection exists" % d)
+            return None
+        if d < 0:
+            return ("c16:plane-missed-hit", "ray_plane reports -1, analytic intersection at %r" % expect)
+        tol = 1e-9 * (1 + nl / nv + expect) / abs(zdir)
+        if not dev.note("plane |x - analytic|", abs(d - expect), tol):
+            return ("c16:plane-wrong-distance", "ray_plane %r vs analytic %r" % (d, expect))
+        return None
+    # ---- convex solids
+    sz = list(size)
+    smin = min(sz[:1] if gtype == SPHERE else sz[:2] if gtype in (CAPSULE, CYLINDER) else sz)
+    if smin < 1e-3 or max(sz) > 1e3:
+        return None
+    R = bound_radius(gtype, sz)
+    g = lambda t: sdf(gtype, sz, [lp[0] + t * lv[0], lp[1] + t * lv[1], lp[2] + t * lv[2]])
+    D = nl + (d * nv if d >= 0 else 0.0) + R
+    if D > 1e4:
+        return None
+    scale = 1e3 if mesh else 1.0         # mesh vertices are float32
+    tol = max(1e-9, 1e-12 * D * D / smin) * scale
+    margin = MARGIN * scale
+    g0 = g(0.0)
+    if d >= 0:
+        res = abs(g(d))
+        if not dev.note(tname + " |sdf(hit)|", res, tol):
+            return ("c16:%s-hit-off-surface" % tname,
+                    "returned point is %.3g away from the %s surface (tolerance %.3g)" % (res, tname, tol))
+        if g0 > margin:
+            # origin robustly outside: nothing may be entered before the reported parameter
+            slack = (tol + margin) / nv * 10
+            if d - slack > 0:
+                mn = convex_min(g, 0.0, d - slack)
+                if mn < -margin:
+                    return ("c16:%s-not-nearest" % tname,
+                            "the ray is %.3g inside the %s before the reported distance %r" % (-mn, tname, d))
+        return None
+    # reported miss: the ray must not robustly enter the solid
+    tc = max(0.0, -sum(lp[i] * lv[i] for i in range(3)) / (nv * nv))
+    if abs(g0) <= margin:
+        return None
+    if g0 < -margin:
+        return ("c16:%s-missed-hit" % tname, "origin is %.3g inside the %s but -1 is reported" % (-g0, tname))
+    # bounding-sphere pre-test
+    cx = [lp[i] + tc * lv[i] for i in range(3)]
+    if math.sqrt(sum(x * x for x in cx)) > R + margin:
+        return None
+    mn = convex_min(g, 0.0, tc + (R + 1.0) / nv)
+    if mn < -margin:
+        return ("c16:%s-missed-hit" % tname, "the ray enters the %s by %.3g but -1 is reported" % (tname, -mn))
+    return None
+
+
+# ------------------------------------------------------------------------------------------ filter (documented spec, in Python)
+def eligible(g, flg, bx, mask):
+    """the documented filter, from the compiled model's attributes (independent of ray_eliminate)"""
+    if g["body"] == bx:
+        return False
+    alpha = g["galpha"] if g["matid"] < 0 else g["malpha"]
+    if alpha == 0:
+        return False
+    if not flg and g["weld"] == 0:
+        return False
+    if mask != "-":
+        grp = min(NGROUP - 1, max(0, g["group"]))
+        if mask[grp] == "0":
+            return False
+    return True
+
+
+def gen_elim_lines(ctx):
+    lines = []
+    masks = ("-", "000000", "111111", "101010", "010101", "100000", "000001")
+    groups = (-3, -1, 0, 1, 2, 3, 4, 5, 6, 7, 100)
+    for body in (0, 1, 2):
+        for matid in (-1, 0, 2):
+            for bits in range(8):
+                ga, ma, w = bits & 1, (bits >> 1) & 1, (bits >> 2) & 1
+                for grp in groups:
+                    for flg in (0, 1):
+                        for bx in (-1, 0, 1, 2):
+                            for mask in masks:
+                                lines.append("elim %d %d %d %d %d %d %d %d %s" % (body, matid, ga, ma, w, grp, flg, bx, mask))
+    rng = ctx.rng
+    for _ in range(2000):
+        lines.append("elim %d %d %d %d %d %d %d %d %s" % (
+            rng.randint(0, 64), rng.randint(-1, 3), rng.randint(0, 1), rng.randint(0, 1), rng.randint(0, 1),
+            rng.choice((rng.randint(-10, 10), rng.randint(-2 ** 31, 2 ** 31 - 1))), rng.randint(0, 1),
+            rng.randint(-1, 64), rng.choice(("-", "".join(rng.choice("01") for _ in range(6))))))
+    # malformed: both sides must answer bad-op
+    lines += ["elim 1 -1 0 0 0 3 1 -1 11111", "elim 1 -1 0 0 0 3 1 -1 1111111", "elim 1 -1 0 2 0 3 1 -1 -",
+              "elim 1 -1 0 0 0 +3 1 -1 -", "elim 1 -1 0 0 0 3 1 -1", "elim 1 4 0 0 0 3 1 -1 -", "elim 65 0 0 0 0 3 1 -1 -",
+              "elim 1 -1 0 0 0 x 1 -1 -", "elim 1 -1 0 0 0 3 2 -1 -", "frob"]
+    return lines
+
+
+def elim_oracle(line, out):
+    w = line.split()
+    try:
+        if len(w) != 10 or w[0] != "elim":
+            raise ValueError
+        body, matid, ga, ma, weld0, grp, flg, bx = (int(x) for x in w[1:9])
+        mask = w[9]
+        if any(x.startswith("+") for x in w[1:9]) or not (0 <= body <= 64 and -1 <= matid <= 3) or \
+                any(v not in (0, 1) for v in (ga, ma, weld0, flg)) or not (mask == "-" or (len(mask) == 6 and set(mask) <= set("01"))):
+            raise ValueError
+    except ValueError:
+        return None if out == "bad-op" else "malformed elim line accepted"
+    g = {"body": body, "matid": matid, "galpha": 0.0 if ga else 1.0, "malpha": 0.0 if ma else 0.25,
+         "weld": 0 if weld0 else 1, "group": grp}
+    exp = "0" if eligible(g, flg, bx, mask) else "1"
+    return None if out == exp else "ray_eliminate returns %s where the documented filter says %s" % (out, exp)
+
+
+# ------------------------------------------------------------------------------------------ scenes: generation and parsing
+def gen_scene_stream(ctx, nscene, nsrc, nray):
+    """harness input lines + a parallel list of descriptors"""
+    rng = ctx.rng
+    lines, meta = [], []
+    for s in range(nscene):
+        mdl, desc, trailer = make_scene(rng)
+        block = scene_block(desc, trailer)
+        lines += block
+        meta.append({"kind": "model", "scene": s, "block": block})
+        st = mdl.random_state(rng)
+        sl = "state " + " ".join(repr(x) for x in st["qpos"])
+        lines.append(sl)
+        meta.append({"kind": "state", "scene": s, "line": sl})
+        lines.append("scene")
+        meta.append({"kind": "scene", "scene": s})
+        nb = len(mdl.bodies)
+        for k in range(nsrc):
+            p = [rng.uniform(-2, 2), rng.uniform(-2, 2), rng.uniform(0.02, 2.5)]
+            if rng.random() < 0.15:
+                p = [rng.uniform(-0.6, 0.6), rng.uniform(-0.6, 0.6), rng.uniform(0.1, 1.0)]   # among the bodies
+            flg = rng.choice((0, 1, 1))
+            bx = rng.choice((-1, -1, 0, rng.randint(0, nb + 1)))
+            mask = rng.choice(("-", "-", "111111", "101010", "110111", "000001", "".join(rng.choice("01") for _ in range(6))))
+            cutoff = rng.choice((1e10, 1e10, 1e10, rng.uniform(0.3, 3.0)))
+            vs = []
+            for r in range(nray):
+                c = rng.random()
+                v = unit_vec(rng)
+                if c < 0.1:
+                    v = [0.0, 0.0, -1.0] if rng.random() < 0.5 else [rng.choice((1.0, -1.0)), 0.0, 0.0]
+                sc = rng.choice((1.0, 1.0, 0.3, 7.0))
+                if c > 0.97:
+                    sc = rng.choice((1e-7, 3.2e-8, 3.1e-8, 1e-9, 1e-12))     # around the two thresholds of mj_ray / mj_multiRay
+                v = [x * sc for x in v]
+                vs.append(v)
+                rl = "ray %s %s %d %d %s" % (" ".join(map(repr, p)), " ".join(map(repr, v)), flg, bx, mask)
+                lines.append(rl)
+                meta.append({"kind": "ray", "scene": s, "src": k, "ray": r, "line": rl, "pnt": p, "vec": v,
+                             "flg": flg, "bx": bx, "mask": mask})
+            ml = "multi %s %d %d %s %r %d %s" % (" ".join(map(repr, p)), flg, bx, mask, cutoff, len(vs),
+                                                 " ".join(repr(x) for v in vs for x in v))
+            lines.append(ml)
+            meta.append({"kind": "multi", "scene": s, "src": k, "line": ml, "pnt": p, "vecs": vs, "flg": flg, "bx": bx,
+                         "mask": mask, "cutoff": cutoff})
+    return lines, meta
+
+
+def parse_scene(out):
+    parts = out.split(" ; ")
+    n = int(parts[0])
+    geoms = []
+    for p in parts[1:]:
+        w = p.split()
+        g = {"type": int(w[0]), "body": int(w[1]), "weld": int(w[2]), "group": int(w[3]), "matid": int(w[4]),
+             "galpha": float(w[5]), "malpha": float(w[6]), "contype": int(w[7]), "conaffinity": int(w[8]),
+             "bvhadr": int(w[9]), "rbound": float(w[10]),
+             "size": [float(x) for x in w[11:14]], "pos": [float(x) for x in w[14:17]], "mat": [float(x) for x in w[17:26]]}
+        geoms.append(g)
+    assert len(geoms) == n
+    return geoms
+
+
+def parse_ray(out):
+    head, tail = out.split(" | ")
+    w = head.split()
+    assert w[0] == "R" and w[3] == "N" and w[8] == "G"
+    res = {"R": (w[1], int(w[2])), "N": (w[4], w[5:8]), "G": w[9]}
+    parts = tail.split(" ; ")
+    geoms = []
+    for p in parts[1:]:
+        x = p.split()
+        geoms.append({"elim": int(x[0]), "d": x[1], "dn": x[2], "n": x[3:6]})
+    assert len(geoms) == int(parts[0])
+    res["geoms"] = geoms
+    return res
+
+
+def parse_multi(out):
+    a, b, c = out.split(" | ")
+    w = a.split()[1:]
+    res = [(w[2 * i], int(w[2 * i + 1])) for i in range(len(w) // 2)]
+    el = [int(x) for x in b.split()[1:]]
+    x = c.split()[1:]
+    nr = [(x[4 * i], x[4 * i + 1:4 * i + 4]) for i in range(len(x) // 4)]
+    return res, el, nr
+
+
+def replay_obj(block, state_line, line, extra=None):
+    r = {"how": "feed `model_block` lines, `state`, then `op` to the c16_ray harness built by checks/c16.py "
+                "(harness/c/c16_ray.c; doubles in outputs are IEEE-754 bit patterns)",
+         "model_block": block, "state": state_line, "op": line}
+    if extra:
+        r.update(extra)
+    return r
+
+
+# ------------------------------------------------------------------------------------------ the scene part of the check
+def run_scenes(ctx, impl, drv, nscene, nsrc, nray, dev, found, stats, max_report=4):
+    lines, meta = gen_scene_stream(ctx, nscene, nsrc, nray)
+    rc, outs, err = ctx.run_lines([impl], lines)
+    # the harness answers one line per command; model blocks are one command
+    if rc != 0 or len(outs) != len(meta):
+        found.append({"key": "c16:crash", "what": "c16_ray harness crashed or lost sync (rc=%s, %d outputs for %d commands)"
+                      % (rc, len(outs), len(meta)), "replay": {"stderr": err[-400:]}})
+        return
+    sel_lines, sel_expect, sel_info = [], [], []
+    elim_lines, elim_expect = [], []
+    multi_lines, multi_expect, multi_info = [], [], []
+    cur = {}
+    rays = {}
+
+    def report(key, what, rp):
+        stats["oracle_failures"] += 1
+        stats["by_key"][key] = stats["by_key"].get(key, 0) + 1
+        if sum(1 for f in found if f["key"] == key) < max_report:
+            found.append({"key": key, "what": what, "replay": rp})
+
+    for m, o in zip(meta, outs):
+        k = m["kind"]
+        if k == "model":
+            cur = {"block": m["block"], "ok": o.startswith("ok"), "state": None, "geoms": None}
+            rays = {}
+            if not cur["ok"]:
+                stats["scene_build_errors"] += 1
+                stats.setdefault("scene_error_samples", [])
+                if len(stats["scene_error_samples"]) < 3:
+                    stats["scene_error_samples"].append(o[:200])
+            else:
+                stats["scenes"] += 1
+            continue
+        if not cur.get("ok"):
+            continue
+        if k == "state":
+            cur["state"] = m["line"]
+            if o != "ok":
+                cur["ok"] = False
+            continue
+        if k == "scene":
+            cur["geoms"] = parse_scene(o)
+            for g in cur["geoms"]:
+                stats["geom_types"][g["type"]] = stats["geom_types"].get(g["type"], 0) + 1
+            continue
+        geoms = cur["geoms"]
+        rp = lambda extra=None: replay_obj(cur["block"], cur["state"], m["line"], extra)
+        if k == "ray":
+            nvec = math.sqrt(sum(x * x for x in m["vec"]))
+            if o.startswith("error"):
+                if nvec >= MINVAL * 1.01:
+                    report("c16:ray-error", "mj_ray raised an error on a valid ray: " + o[:120], rp())
+                rays[(m["src"], m["ray"])] = None
+                continue
+            if nvec < MINVAL * 0.99:
+                report("c16:ray-accepts-zero-vec", "mj_ray accepted a direction shorter than mjMINVAL", rp({"output": o[:200]}))
+            r = parse_ray(o)
+            rays[(m["src"], m["ray"])] = (m, r)
+            stats["rays"] += 1
+            dist, gid = frombits(r["R"][0]), r["R"][1]
+            ctx.count(("ray", m["line"]), nontrivial=gid >= 0)
+            # variants agree
+            if not (r["R"][0] == r["N"][0] == r["G"]):
+                report("c16:ray-variants-differ", "mj_ray returns different distances with/without geomid/normal outputs",
+                       rp({"output": o[:300]}))
+            # -1 <=> geomid -1, range
+            if (dist == -1.0) != (gid == -1) or (dist < 0 and dist != -1.0) or dist != dist:
+                report("c16:ray-minus-one-iff", "distance %r with geom id %d" % (dist, gid), rp())
+            # brute force over the per-geom distances with the documented filter
+            cand = []
+            for i, (g, pg) in enumerate(zip(geoms, r["geoms"])):
+                el = eligible(g, m["flg"], m["bx"], m["mask"])
+                if pg["elim"] != (0 if el else 1):
+                    report("c16:eliminate-vs-spec", "ray_eliminate(geom %d) = %d, documented filter says eligible=%s"
+                           % (i, pg["elim"], el), rp({"geom": g}))
+                di = frombits(pg["d"])
+                if pg["d"] != pg["dn"]:
+                    report("c16:geom-normal-variant-differs", "per-geom distance differs with a normal output (geom %d type %d)"
+                           % (i, g["type"]), rp())
+                nn = [frombits(x) for x in pg["n"]]
+                n2 = sum(x * x for x in nn)
+                if all(math.isfinite(x) for x in nn) and math.isfinite(di):
+                    if di >= 0 and not dev.note("|normal|-1", abs(math.sqrt(n2) - 1.0), 1e-9):
+                        report("c16:normal-not-unit", "normal of a hit has length %r (geom %d type %d)" % (math.sqrt(n2), i, g["type"]), rp())
+                    if di < 0 and n2 != 0.0:
+                        report("c16:normal-nonzero-on-miss", "normal is non-zero for a miss (geom %d type %d)" % (i, g["type"]), rp())
+                if el and di >= 0:
+                    cand.append((di, i))
+                # analytic geometry of every per-geom distance
+                if g["type"] in (PLANE, SPHERE, CAPSULE, ELLIPSOID, CYLINDER, BOX, MESH) and nvec >= 1e-6:
+                    why = analytic_check(g["type"], g["size"], g["pos"], g["mat"], m["pnt"], m["vec"], di, dev,
+                                         mesh=(g["type"] == MESH))
+                    stats["analytic_checked"] += 1
+                    if why:
+                        report(why[0], why[1] + " (geom %d)" % i, rp({"geom": g, "reported": di}))
+            if cand:
+                best = min(c[0] for c in cand)
+                arg = [i for dd, i in cand if dd == best]
+                if fbits(best) != r["R"][0]:
+                    report("c16:ray-not-minimum", "mj_ray distance %r is not the minimum %r over the eligible geoms (argmin %s)"
+                           % (dist, best, arg), rp({"candidates": cand}))
+                elif gid not in arg:
+                    report("c16:ray-geomid-not-argmin", "mj_ray geom id %d does not attain the minimum (argmin %s)" % (gid, arg),
+                           rp({"candidates": cand}))
+                if len(arg) > 1:
+                    stats["ties"] += 1
+            elif gid != -1 or dist != -1.0:
+                report("c16:ray-spurious-hit", "mj_ray reports (%r, %d) but no eligible geom is hit" % (dist, gid), rp())
+            # normal of mj_ray = normal of the winning geom
+            if gid >= 0 and gid < len(r["geoms"]) and r["N"][1] != r["geoms"][gid]["n"]:
+                report("c16:ray-normal", "mj_ray normal differs from the winning geom's normal", rp())
+            if gid < 0 and any(frombits(x) != 0.0 for x in r["N"][1]):
+                report("c16:ray-normal", "mj_ray normal is non-zero for a miss", rp())
+            # tie with the Lean model: filter attributes + per-geom distances -> same distance bits and geom id
+            sel = "sel %d %d %s" % (m["flg"], m["bx"], m["mask"])
+            for g, pg in zip(geoms, r["geoms"]):
+                sel += " ; %d %d %d %d %d %d %s" % (g["body"], g["matid"], 1 if g["galpha"] == 0 else 0,
+                                                    1 if (g["matid"] >= 0 and g["malpha"] == 0) else 0,
+                                                    1 if g["weld"] == 0 else 0, g["group"], pg["d"])
+            if all(0 <= g["body"] <= 64 and -1 <= g["matid"] <= 3 for g in geoms):
+                sel_lines.append(sel)
+                sel_expect.append("%s %d" % r["R"])
+                sel_info.append(rp())
+                if m["ray"] == 0:
+                    for g, pg in zip(geoms, r["geoms"]):
+                        elim_lines.append("elim %d %d %d %d %d %d %d %d %s" % (
+                            g["body"], g["matid"], 1 if g["galpha"] == 0 else 0, 1 if (g["matid"] >= 0 and g["malpha"] == 0) else 0,
+                            1 if g["weld"] == 0 else 0, g["group"], m["flg"], m["bx"], m["mask"]))
+                        elim_expect.append(str(pg["elim"]))
+            continue
+        if k == "multi":
+            if o.startswith("error"):
+                report("c16:multiray-error", "mj_multiRay raised an error: " + o[:120], rp())
+                continue
+            res, gel, nres = parse_multi(o)
+            stats["multi_calls"] += 1
+            big = m["cutoff"] >= 1e9
+            ml = "multi"
+            skip_tie = False
+            exp = []
+            for ri, (v, (db, gid)) in enumerate(zip(m["vecs"], res)):
+                stats["multi_rays"] += 1
+                dm = frombits(db)
+                vv = v[0] * v[0] + v[1] * v[1] + v[2] * v[2]
+                rr = rays.get((m["src"], ri))
+                if nres[ri][0] != db:
+                    report("c16:multiray-variants-differ", "mj_multiRay distance differs with normals requested (ray %d)" % ri, rp())
+                if vv < MINVAL:
+                    # the C code reports -1 and leaves geomid / normal untouched; mj_ray accepts |vec| >= mjMINVAL
+                    if rr is not None:
+                        stats["short_vec_rays"] += 1
+                        report("c16:multiray-short-vec",
+                               "mj_multiRay treats a direction with |vec|^2 < mjMINVAL (|vec| < 3.2e-8) as a miss: dist %r, geomid entry %s; "
+                               "mj_ray accepts the same direction (|vec| >= mjMINVAL) and returns (%r, %d)"
+                               % (dm, "left unwritten" if gid == -7 else gid, frombits(rr[1]["R"][0]), rr[1]["R"][1]),
+                               rp({"ray_index": ri, "vec": v}))
+                elif rr is not None:
+                    rdb, rgid = rr[1]["R"]
+                    rd = frombits(rdb)
+                    if (dm == -1.0) != (gid == -1):
+                        report("c16:multiray-minus-one-iff", "mj_multiRay distance %r with geom id %d" % (dm, gid), rp({"ray_index": ri}))
+                    wd = rd * math.sqrt(vv)
+                    same = (db, gid) == (rdb, rgid)
+                    if not same:
+                        must = big or (rgid >= 0 and wd <= m["cutoff"] * (1 - 1e-9))
+                        weaker_ok = (not must) and ((rd == -1.0 and dm == -1.0) or (rd >= 0 and (dm == -1.0 or dm >= rd)))
+                        if not weaker_ok:
+                            g = geoms[rgid] if 0 <= rgid < len(geoms) else None
+                            farther = rgid >= 0 and (dm == -1.0 or dm > rd)
+                            if farther and g is not None and g["contype"] == 0 and g["conaffinity"] == 0 and g["bvhadr"] != -1:
+                                key = "c16:multiray-visual-geom-culled"
+                                what = ("mj_multiRay misses visual-only geom %d (contype=conaffinity=0, not in the body BVH whose "
+                                        "bounding sphere culls the body): mj_ray (%r, %d), mj_multiRay (%r, %d)" % (rgid, rd, rgid, dm, gid))
+                            elif farther:
+                                key = "c16:multiray-body-sphere-center"
+                                what = ("mj_multiRay drops geom %d that mj_ray hits (body-level bounding-sphere cull of "
+                                        "mju_singleRay): mj_ray (%r, %d), mj_multiRay (%r, %d)" % (rgid, rd, rgid, dm, gid))
+                            else:
+                                key = "c16:multiray-disagrees"
+                                what = "mj_multiRay (%r, %d) differs from mj_ray (%r, %d)" % (dm, gid, rd, rgid)
+                            skip_tie = True
+                            report(key, what, rp({"ray_index": ri, "vec": v, "ray_op": rr[0]["line"]}))
+                    if nres[ri][1] != rr[1]["N"][1] and same:
+                        report("c16:multiray-normal", "mj_multiRay normal differs from mj_ray's (ray %d)" % ri, rp())
+                if rr is None:
+                    skip_tie = True        # mj_ray refused the direction: no per-geom distances for the model
+                else:
+                    ml += " ; %s %s %s" % tuple(fbits(x) for x in v)
+                    for e, pg in zip(gel, rr[1]["geoms"]):
+                        ml += " , %d 0 %s" % (e, pg["d"])
+                    exp.append("%s %s" % (db, "_" if gid == -7 else gid))
+            if not skip_tie and exp:
+                multi_lines.append(ml)
+                multi_expect.append(" ".join(exp))
+                multi_info.append(rp())
+            elif skip_tie:
+                stats["multi_ties_skipped"] += 1
+            ctx.count(("multi", m["line"]))
+    # ---- ties with the Lean hand model
+    for label, ls, ex, info in (("mj_ray selection (real per-geom distances + filter attributes -> Lean mjRayFiltered)", sel_lines, sel_expect, sel_info),
+                                ("ray_eliminate on compiled models -> Lean rayEliminate", elim_lines, elim_expect, None),
+                                ("mj_multiRay (mju_multiRayPrepare flags, real distances -> Lean multiRay)", multi_lines, multi_expect, multi_info)):
+        if not ls:
+            continue
+        rcm, om, em = ctx.run_lines([drv], ls)
+        if rcm != 0 or len(om) != len(ls):
+            raise common.Infra("drv_c16 failed on %s: rc=%d %s" % (label, rcm, em[-300:]))
+        bad = [{"line": l[:3000], "model": a, "impl": b, "replay": (info[i] if info else None)}
+               for i, (l, a, b) in enumerate(zip(ls, om, ex)) if a != b]
+        ctx.oblige("correspondence %s (%d ops)" % (label, len(ls)), "correspondence", not bad, json.dumps(bad[:3])[:1800])
+        if bad:
+            ctx.disagreements += [dict(b, stream=label) for b in bad[:20]]
+        stats["tie_ops"] += len(ls)
+        if ls:
+            ctx.sample({"tie": label, "op": ls[0][:260], "model_and_impl": om[0][:80]})
+
+
+# ------------------------------------------------------------------------------------------ directed mju_rayGeom cases
+def run_geomray(ctx, impl, n, dev, found, stats, max_report=4):
+    rng = ctx.rng
+    lines, cases = [], []
+    for _ in range(n):
+        gtype = rng.choice((PLANE, SPHERE, CAPSULE, ELLIPSOID, CYLINDER, BOX))
+        size, pos, mat, pnt, vec, cls = gen_ray_case(rng, gtype)
+        vals = size + pos + mat + pnt + vec
+        lines.append("geomray %d %s" % (gtype, " ".join(fbits(float(v)) for v in vals)))
+        cases.append((gtype, size, pos, mat, pnt, vec, cls))
+    lines.append("geomray %d %s" % (HFIELD, " ".join(fbits(1.0) for _ in range(21))))     # unexpected type: mjERROR
+    cases.append(None)
+    rc, outs, err = ctx.run_lines([impl], lines)
+    if rc != 0 or len(outs) != len(lines):
+        found.append({"key": "c16:crash", "what": "c16_ray harness crashed on geomray (rc=%s)" % rc, "replay": {"stderr": err[-300:]}})
+        return
+    for l, c, o in zip(lines, cases, outs):
+        rp = {"op": l, "how": "echo '<op>' | c16_ray   (tokens are IEEE-754 bit patterns: size[3] pos[3] mat[9] pnt[3] vec[3])"}
+        key = what = None
+        if c is None:
+            if not o.startswith("error"):
+                key, what = "c16:raygeom-bad-type", "mju_rayGeom accepted geom type mjGEOM_HFIELD: " + o[:80]
+        elif o.startswith("error"):
+            key, what = "c16:raygeom-error", "mju_rayGeom raised an error: " + o[:100]
+        else:
+            gtype, size, pos, mat, pnt, vec, cls = c
+            rp["class"] = cls
+            rp["inputs"] = {"type": gtype, "size": size, "pos": pos, "mat": mat, "pnt": pnt, "vec": vec}
+            w = o.split()
+            d0, d1 = frombits(w[0]), frombits(w[1])
+            nn = [frombits(x) for x in w[2:5]]
+            stats["geomray_classes"][cls] = stats["geomray_classes"].get(cls, 0) + 1
+            stats["geomray_hits"] += 1 if d0 >= 0 else 0
+            ctx.count(("geomray", l), nontrivial=d0 >= 0)
+            if w[0] != w[1]:
+                key, what = "c16:geom-normal-variant-differs", "mju_rayGeom distance differs with a normal output (%r vs %r)" % (d0, d1)
+            elif d0 != d0 and all(math.isfinite(v) for v in size + pos + mat + pnt + vec) and min(size[:2]) > 1e-6 and cls not in ("special", "huge"):
+                key, what = "c16:dist-range", "mju_rayGeom returns NaN on finite inputs"
+            else:
+                if d0 == d0 and d0 >= 0 and all(math.isfinite(x) for x in nn):
+                    if not dev.note("|normal|-1", abs(math.sqrt(sum(x * x for x in nn)) - 1.0), 1e-9):
+                        key, what = "c16:normal-not-unit", "normal of a hit has length %r" % math.sqrt(sum(x * x for x in nn))
+                if d0 == d0 and d0 < 0 and any(x != 0.0 for x in nn):
+                    key, what = "c16:normal-nonzero-on-miss", "normal is non-zero for a miss"
+                if key is None and cls not in ("special",):
+                    why = analytic_check(gtype, size, pos, mat, pnt, vec, d0, dev)
+                    stats["analytic_checked"] += 1
+                    if why:
+                        key, what = why
+        if key:
+            stats["oracle_failures"] += 1
+            stats["by_key"][key] = stats["by_key"].get(key, 0) + 1
+            if sum(1 for f in found if f["key"] == key) < max_report:
+                found.append({"key": key, "what": what, "replay": rp})
+
+
+# ------------------------------------------------------------------------------------------ entry point
+THEOREMS = [
+    "MjProof.C16.ray_quad_smallest_nonneg_root",
+    "MjProof.C16.ray_quad_outputs",
+    "MjProof.C16.ray_quad_rejects",
+    "MjProof.C16.sphere_hit_on_surface",
+    "MjProof.C16.sphere_nearest",
+    "MjProof.C16.sphere_miss_iff",
+    "MjProof.C16.ellipsoid_hit_on_surface",
+    "MjProof.C16.ellipsoid_nearest",
+    "MjProof.C16.ellipsoid_miss_iff",
+    "MjProof.C16.plane_hit_on_surface",
+    "MjProof.C16.plane_unique",
+    "MjProof.C16.plane_nearest",
+    "MjProof.C16.plane_miss_iff",
+    "MjProof.C16.box_hit_on_surface_partial",
+    "MjProof.C16.box_range",
+    "MjProof.C16.cylinder_hit_on_surface_partial",
+    "MjProof.C16.cylinder_range",
+    "MjProof.C16.capsule_hit_on_surface_partial",
+    "MjProof.C16.capsule_range",
+    "MjProof.C16.eliminate_matches_spec",
+    "MjProof.C16.clampGroup_spec",
+    "MjProof.C16.eliminate_bodyexclude",
+    "MjProof.C16.eliminate_static",
+    "MjProof.C16.ray_all_min",
+    "MjProof.C16.multiRay_eq_map_ray",
+    "MjProof.C16.multiRay_short",
+]
+
+
+def new_stats():
+    return {"scenes": 0, "scene_build_errors": 0, "rays": 0, "multi_calls": 0, "multi_rays": 0, "ties": 0, "tie_ops": 0,
+            "analytic_checked": 0, "oracle_failures": 0, "by_key": {}, "geom_types": {}, "short_vec_rays": 0,
+            "multi_ties_skipped": 0, "geomray_classes": {}, "geomray_hits": 0}
+
+
+def run(ctx):
+    thorough = ctx.tier == "thorough"
+    ctx.rule = ("(1) kernel cases per generated kernel drawn from named ray classes (outside towards / random, inside, grazing, "
+                "axis-parallel incl. sliding in a face plane, pointing away, tiny and zero direction, origin on the surface, far "
+                "origin, special values); (2) elim lines: exhaustive product of filter attributes + random; (3) generated scenes "
+                "(gen/models.py + post-processing: groups incl. out-of-range, invisible rgba/materials, duplicated geoms for exact "
+                "ties, static world geoms, lopsided bodies, box meshes) with ray fans from random sources under random filter "
+                "settings; a case is distinct by its full op line, non-trivial = a geom is hit")
+    m = kernelval.regen(ctx)
+    ctx.lean_props(THEOREMS)
+    gens = {n: kernel_gen(n) for n in KERNEL_TYPE}
+    gens["ray_quad"] = quad_gen
+    kernelval.validate(ctx, m, KERNELS, 3000 if thorough else 120, gens=gens, label="C16 ray kernels")
+    ctx.extra["kernel_body_sha256"] = {n: m.get("kernels", {}).get(n, {}).get("sha256", "")[:16] for n in KERNELS}
+
+    drv = ctx.driver("drv_c16")
+    impl = ctx.harness("harness/c/c16_ray.c", "c16_ray", deps=["harness/mjbuild.h"])
+    if not drv or not impl:
+        return
+    dev = Dev()
+    found = []
+    stats = new_stats()
+    if getattr(ctx, "replay", None):
+        rp = json.load(open(ctx.replay))
+        for f in rp.get("failures", []):
+            r = f.get("replay", {})
+            ls = (r.get("model_block") or []) + ([r["state"]] if r.get("state") else []) + ([r["ray_op"]] if r.get("ray_op") else []) + [r.get("op", "")]
+            rc, outs, err = ctx.run_lines([impl], ls)
+            print("REPLAY %s\n  %s\n  -> %s" % (f.get("key"), f.get("what"), "\n     ".join(o[:400] for o in outs[-3:])))
+        return
+    # ---- ray_eliminate: the hand model vs the real static function, all filter inputs
+    el = gen_elim_lines(ctx)
+    rc, outs, err = ctx.run_lines([impl], el)
+    ctx.differential("ray_eliminate (one-geom model with the given attributes) vs Lean rayEliminate", [drv], [impl], el,
+                     keyf=lambda l: l)
+    if rc == 0 and len(outs) == len(el):
+        for l, o in zip(el, outs):
+            why = elim_oracle(l, o)
+            if why:
+                stats["oracle_failures"] += 1
+                stats["by_key"]["c16:eliminate-vs-spec"] = stats["by_key"].get("c16:eliminate-vs-spec", 0) + 1
+                if sum(1 for f in found if f["key"] == "c16:eliminate-vs-spec") < 4:
+                    found.append({"key": "c16:eliminate-vs-spec", "what": why,
+                                  "replay": {"op": l, "impl_output": o, "how": "echo '<op>' | c16_ray"}})
+    else:
+        found.append({"key": "c16:crash", "what": "c16_ray crashed on elim lines (rc=%s)" % rc, "replay": {"stderr": err[-300:]}})
+    ctx.extra["elim_exhaustive_scope"] = ("bodyid {0,1,2} x matid {-1,0,2} x (geom alpha 0, material alpha 0, weld 0) x group "
+                                          "{-3,-1,0..7,100} x flg_static x bodyexclude {-1,0,1,2} x 7 masks = 44352 lines, + 2000 random")
+    # ---- scenes
+    if thorough:
+        run_scenes(ctx, impl, drv, 320, 6, 60, dev, found, stats)
+    else:
+        run_scenes(ctx, impl, drv, 40, 5, 40, dev, found, stats)
+    # ---- directed primitive cases
+    run_geomray(ctx, impl, 250000 if thorough else 12000, dev, found, stats)
+    # findings of mj_multiRay's culling (reported to the coordinator, see final report) go last so that any other
+    # failure is among the first entries of the replay file
+    late = ("c16:multiray-short-vec", "c16:multiray-body-sphere-center", "c16:multiray-visual-geom-culled")
+    for f in sorted(found, key=lambda f: f["key"] in late):
+        ctx.oracle_failure(f["key"], f["what"], f["replay"])
+    ctx.extra["oracle"] = {k: v for k, v in stats.items()}
+    ctx.extra["oracle_max_deviation_over_allowed"] = {k: float("%.3g" % v) for k, v in sorted(dev.m.items())}
+
+    def directed(c):
+        # a proof / tie obligation broke and the sampled oracle found nothing: search harder on the real code
+        for rnd in range(4):
+            f2, s2 = [], new_stats()
+            run_geomray(c, impl, 40000, Dev(), f2, s2, max_report=1)
+            if not f2:
+                run_scenes(c, impl, drv, 30, 5, 40, Dev(), f2, s2, max_report=1)
+            known = {k["key"] for k in c.known()}
+            f2 = [f for f in f2 if f["key"] not in known]
+            if f2:
+                return f2[0]
+        return None
+    ctx.directed_search = directed
+    if thorough:
+        ctx.leanchecker(["MjProof.Props.C16"])
